@@ -61,6 +61,9 @@ def contexts(x, nonnull):
     yield 'expectnot', ('seq', [('expectnot', x), REST])
     if nonnull:
         yield 'star', ('seq', [('star', x), REST])
+        # the loop behind every ignore declaration: a Skip whose only / last operand is the repetition
+        yield 'skip', ('seq', [('skip', [x]), REST])
+        yield 'skip-last', ('seq', [('skip', [('str', '!'), x]), REST])
 
 
 def bound_forms():
@@ -167,7 +170,7 @@ def run_shard(rec):
     NUM = ('apply', ('re', '[0-9]', False), ('py', 'int'))
     for ename in ('lit', 'seq', 'alt'):
         e = ELEMS[ename]
-        for bform in ('n', '_n', 'n_', 'py', 'pyrange', 'nn'):
+        for bform in ('n', '_n', 'n_', 'py', 'pyrange', 'nn', 'pycond', 'pyor', 'pycond-max', 'pylambda'):
             if bform == 'n':
                 m, n = ('name', 'n'), ('name', 'n')
             elif bform == '_n':
@@ -178,6 +181,15 @@ def run_shard(rec):
                 m, n = ('py', 'n'), ('py', 'n')
             elif bform == 'pyrange':
                 m, n = ('py', 'max(n - 1, 0)'), ('py', 'n + 1')
+            # inline Python whose top-level operator binds more loosely than a comparison
+            elif bform == 'pycond':
+                m, n = ('py', 'n if n < 3 else 1'), ('py', 'n if n < 3 else 1')
+            elif bform == 'pyor':
+                m, n = ('py', 'n - 2 or 1'), ('py', 'n or 2')
+            elif bform == 'pycond-max':
+                m, n = None, ('py', '2 if n else 3')
+            elif bform == 'pylambda':
+                m, n = ('py', '(lambda k: k // 2)(n)'), ('py', 'n and n + 1')
             else:
                 m, n = 1, ('name', 'n')
             x = ('rep', e, m, n)
